@@ -27,6 +27,7 @@ type c18Case struct {
 	Callback bool        `json:"callback"` // LMTPData with callback, else Data()
 	NilCB    bool        `json:"nil_cb"`   // LMTPData(nil)
 	Reset    bool        `json:"reset"`    // Client.Reset between transactions
+	Mix      int         `json:"mix"`      // 1, 2: the API used rotates forwards / backwards from transaction to transaction (callback / nil callback / Data())
 	Abandon  int         `json:"abandon"`  // index+1 of a transaction that is abandoned after its RCPTs (DATA refused by the peer with 451); scripted peer
 }
 
@@ -72,6 +73,12 @@ func c18Run(ctx *core.Ctx) {
 					c.Txns = t
 					c.Reset = reset
 					emit(c)
+					if len(t) > 1 {
+						c.Mix = 1
+						emit(c)
+						c.Mix = 2
+						emit(c)
+					}
 				}
 			}
 		}
@@ -130,7 +137,7 @@ func c18Exec(ctx *core.Ctx, c c18Case) {
 			}
 		}
 	}
-	ctx.Eval(fmt.Sprintf("%v|%v|%v|%v|%d", c.Txns, c.Callback, c.NilCB, c.Reset, c.Abandon), nontrivial)
+	ctx.Eval(fmt.Sprintf("%v|%v|%v|%v|%d", c.Txns, c.Callback, c.NilCB, c.Reset, c.Abandon)+fmt.Sprint("|", c.Mix), nontrivial)
 	rig := newRig(modeLMTPRcpt, nil)
 	// addresses encode transaction, index and verdict: t<t>r<i>-<ok|fail|rej>@x.test
 	rig.BE.H.Rcpt = func(sess int, to string, o *smtp.RcptOptions) error {
@@ -164,7 +171,8 @@ func c18Exec(ctx *core.Ctx, c c18Case) {
 		}
 		for _, rc := range curRcpts {
 			if strings.Contains(rc, "-fail") {
-				st.SetStatus(rc, &smtp.SMTPError{Code: 552, EnhancedCode: smtp.EnhancedCode{5, 2, 2}, Message: "v#st " + rc})
+				code := c18FailCode(rc)
+				st.SetStatus(rc, &smtp.SMTPError{Code: code, EnhancedCode: smtp.EnhancedCode{code / 100, 2, 2}, Message: "v#st " + rc})
 			} else {
 				st.SetStatus(rc, nil)
 			}
@@ -195,7 +203,7 @@ func c18Exec(ctx *core.Ctx, c c18Case) {
 		if fake != nil {
 			lg = fake.Log.Strings(100)
 		}
-		ctx.Violate(sig, msg+fmt.Sprintf(" [txns=%v callback=%v nilcb=%v reset=%v fake=%v]", c.Txns, c.Callback, c.NilCB, c.Reset, useFake), c, lg)
+		ctx.Violate(sig, msg+fmt.Sprintf(" [txns=%v callback=%v nilcb=%v mix=%v reset=%v fake=%v]", c.Txns, c.Callback, c.NilCB, c.Mix, c.Reset, useFake), c, lg)
 	}
 	done := func() {
 		cl.Close()
@@ -210,6 +218,8 @@ func c18Exec(ctx *core.Ctx, c c18Case) {
 		rcpt string
 		err  *smtp.SMTPError
 	}
+	curTxn := -1
+	var staleCalls []string
 	for ti, t := range c.Txns {
 		if ti > 0 && c.Reset {
 			if err := cl.Reset(); err != nil {
@@ -234,6 +244,29 @@ func c18Exec(ctx *core.Ctx, c c18Case) {
 		var accepted []string
 		var wantCB []cbk
 		anyFail := false
+		// the API of this transaction
+		cb, nilcb := c.Callback, c.NilCB
+		if c.Mix > 0 {
+			base := 0
+			if c.Callback && c.NilCB {
+				base = 1
+			} else if !c.Callback {
+				base = 2
+			}
+			step := ti
+			if c.Mix == 2 {
+				step = 2 * ti // backwards: callback, Data(), nil callback
+			}
+			switch (base + step) % 3 {
+			case 0:
+				cb, nilcb = true, false
+			case 1:
+				cb, nilcb = true, true
+			default:
+				cb, nilcb = false, false
+			}
+		}
+		curTxn = ti
 		for ri, r := range t {
 			tag := "ok"
 			switch {
@@ -284,10 +317,17 @@ func c18Exec(ctx *core.Ctx, c c18Case) {
 			continue
 		}
 		switch {
-		case c.Callback && c.NilCB:
+		case cb && nilcb:
 			w, err = cl.LMTPData(nil)
-		case c.Callback:
-			w, err = cl.LMTPData(func(rcpt string, st *smtp.SMTPError) { got = append(got, cbk{rcpt, st}) })
+		case cb:
+			mine := ti
+			w, err = cl.LMTPData(func(rcpt string, st *smtp.SMTPError) {
+				if curTxn != mine {
+					staleCalls = append(staleCalls, fmt.Sprintf("callback of transaction %d called with (%s, %v) during transaction %d", mine, rcpt, st, curTxn))
+					return
+				}
+				got = append(got, cbk{rcpt, st})
+			})
 		default:
 			w, err = cl.Data()
 		}
@@ -309,7 +349,12 @@ func c18Exec(ctx *core.Ctx, c c18Case) {
 			return
 		}
 		ctx.Add("status_callbacks_compared", int64(len(got)))
-		if c.Callback && !c.NilCB {
+		if len(staleCalls) > 0 {
+			done()
+			fail("C18:stale-callback", fmt.Sprintf("transaction %d: %s", ti, strings.Join(staleCalls, "; ")))
+			return
+		}
+		if cb && !nilcb {
 			if cerr != nil {
 				done()
 				fail("C18:close-error", fmt.Sprintf("transaction %d: Close returned %v", ti, cerr))
@@ -320,7 +365,7 @@ func c18Exec(ctx *core.Ctx, c c18Case) {
 				for i := range got {
 					if got[i].rcpt != wantCB[i].rcpt || (got[i].err == nil) != (wantCB[i].err == nil) {
 						okSeq = false
-					} else if got[i].err != nil && (got[i].err.Code != 552 || !strings.Contains(got[i].err.Message, "v#st "+wantCB[i].rcpt)) {
+					} else if got[i].err != nil && (got[i].err.Code != c18FailCode(wantCB[i].rcpt) || !strings.Contains(got[i].err.Message, "v#st "+wantCB[i].rcpt)) {
 						okSeq = false
 					}
 				}
@@ -387,7 +432,8 @@ func c18FakeLMTP(f *wire.Fake) {
 				inData = false
 				for _, rc := range accepted {
 					if strings.Contains(rc, "-fail") {
-						f.Write("552 5.2.2 <" + rc + "> v#st " + rc + "\r\n")
+						code := c18FailCode(rc)
+						f.Write(fmt.Sprintf("%d %d.2.2 <%s> v#st %s\r\n", code, code/100, rc, rc))
 					} else {
 						f.Write("250 2.0.0 <" + rc + "> ok\r\n")
 					}
@@ -437,4 +483,14 @@ func c18FakeLMTP(f *wire.Fake) {
 			f.Write("500 5.5.1 what\r\n")
 		}
 	}
+}
+
+// c18FailCode is the reply code of the post-DATA refusal of a recipient: it varies with the
+// address (permanent and transient codes, 421 among them) so that no code is special.
+func c18FailCode(addr string) int {
+	n := 0
+	for _, ch := range addr {
+		n += int(ch)
+	}
+	return []int{552, 421, 450, 554}[n%4]
 }
